@@ -292,7 +292,7 @@ func (s *Script) IsP2PK() bool {
 		return false
 	}
 
-	if len(parts) == 2 && len(parts[0]) > 0 && parts[1][0] == OpCHECKSIG {
+	if len(parts) == 2 && len(parts[0]) > 0 && len(parts[1]) > 0 && parts[1][0] == OpCHECKSIG {
 		pubkey := parts[0]
 		version := pubkey[0]
 
@@ -349,21 +349,27 @@ func isP2PKHInscriptionHelper(parts [][]byte) bool {
 	if len(parts) < 13 {
 		return false
 	}
-	valid := parts[0][0] == OpDUP &&
-		parts[1][0] == OpHASH160 &&
-		parts[3][0] == OpEQUALVERIFY &&
-		parts[4][0] == OpCHECKSIG &&
-		parts[5][0] == OpFALSE &&
-		parts[6][0] == OpIF &&
-		parts[7][0] == 0x6f && parts[7][1] == 0x72 && parts[7][2] == 0x64 && // op_push "ord"
-		parts[8][0] == OpTRUE &&
-		parts[10][0] == OpFALSE &&
-		parts[12][0] == OpENDIF
+	valid := partIsOpcode(parts, 0, OpDUP) &&
+		partIsOpcode(parts, 1, OpHASH160) &&
+		partIsOpcode(parts, 3, OpEQUALVERIFY) &&
+		partIsOpcode(parts, 4, OpCHECKSIG) &&
+		partIsOpcode(parts, 5, OpFALSE) &&
+		partIsOpcode(parts, 6, OpIF) &&
+		bytes.HasPrefix(parts[7], []byte{0x6f, 0x72, 0x64}) && // op_push "ord"
+		partIsOpcode(parts, 8, OpTRUE) &&
+		partIsOpcode(parts, 10, OpFALSE) &&
+		partIsOpcode(parts, 12, OpENDIF)
 
 	if len(parts) > 13 {
-		return parts[13][0] == OpRETURN && valid
+		return partIsOpcode(parts, 13, OpRETURN) && valid
 	}
 	return valid
+}
+
+// partIsOpcode reports whether part i exists, is not empty (zero length pushes
+// decode to empty parts) and starts with the given opcode.
+func partIsOpcode(parts [][]byte, i int, op byte) bool {
+	return i >= 0 && i < len(parts) && len(parts[i]) > 0 && parts[i][0] == op
 }
 
 // ParseInscription parses the script to
@@ -376,7 +382,7 @@ func (s *Script) ParseInscription() (*InscriptionArgs, error) {
 		return nil, err
 	}
 
-	if !isP2PKHInscriptionHelper(p) {
+	if !isP2PKHInscriptionHelper(p) || len(*s) < 25 {
 		return nil, ErrP2PKHInscriptionNotFound
 	}
 
@@ -412,7 +418,7 @@ func (s *Script) IsMultiSigOut() bool {
 		return false
 	}
 
-	if !isSmallIntOp(parts[0][0]) {
+	if len(parts[0]) < 1 || !isSmallIntOp(parts[0][0]) {
 		return false
 	}
 
